@@ -229,7 +229,7 @@ class Builder:
         """a `fold(flag, |flag, element| ..)` over an enum whose separator logic is more than `if !first`: the closure is
         tabulated by abstract interpretation per (flag value, element variant) - what is written and the flag returned -
         and becomes a two-state automaton"""
-        from .interp import Interp, Opaque, Var, Unsupported, Diverged
+        from .interp import Interp, Opaque, Var, Unsupported, Diverged, _Continue
         info = S[2]
         for_mode = info.get("kind") == "for"
         if for_mode:
@@ -300,7 +300,10 @@ class Builder:
                 for sk in sinks:
                     env[sk] = Opaque("sink")
                 try:
-                    r = it.ev(body_node, env)
+                    try:
+                        r = it.ev(body_node, env)
+                    except _Continue:
+                        r = None        # `continue`: the iteration ends here
                     if for_mode:
                         r = env.get(flag)
                 except Diverged:
@@ -328,8 +331,11 @@ class Builder:
         for st in starts:
             a.add_eps(s, Q[st])
         done = a.state()
+        vdef = {v["name"]: v["def"] for v in self.f.adts[adt]["variants"]}
         for (fv, vn), (out, r) in rows.items():
             cur = Q[fv]
+            old_cv = self.cvar.get(elem)
+            self.cvar[elem] = vdef[vn]        # renderers called in this row see the element as this variant
             for item in out:
                 nxt = a.state()
                 if item[0] == "@":
@@ -351,6 +357,10 @@ class Builder:
                                 toks += lex(part)
                         self.tokens(toks, cur, nxt, {"fn": fname, "lit": text})
                 cur = nxt
+            if old_cv is None:
+                self.cvar.pop(elem, None)
+            else:
+                self.cvar[elem] = old_cv
             a.add_eps(cur, Q[r])
             a.add_eps(cur, done)
         a.add_eps(done, e)
